@@ -261,7 +261,7 @@ let run_trace infile outfile =
 
 let conf_str (c : conf) : string =
   let l x = String.concat "," (List.map (fun i -> string_of_int (int_of_nat i)) x) in
-  Printf.sprintf "(%s)&&(%s)%s" (l c.c_in) (l c.c_out) (if c.c_auto then " autoleave" else "")
+  Printf.sprintf "(%s)&&(%s)%s learners(%s)" (l c.c_in) (l c.c_out) (if c.c_auto then " autoleave" else "") (l c.c_learn)
 
 (* ... <nlog> (t p)* CFG <nin> ids <nout> ids <auto> *)
 let split_cfg (toks : string list) : string list * conf =
@@ -275,8 +275,9 @@ let split_cfg (toks : string list) : string list * conf =
   let cin, r = take_n nin r in
   let nout, r = (List.hd r, List.tl r) in
   let cout, r = take_n nout r in
-  let auto = (match r with [a] -> a = 1 | _ -> failwith "bad CFG") in
-  (st, { c_in = List.map nat_of_int cin; c_out = List.map nat_of_int cout; c_auto = auto })
+  let auto, r = (match r with a :: r -> (a = 1, r) | _ -> failwith "bad CFG") in
+  let learn = (match r with [] -> [] | nl :: r -> fst (take_n nl r)) in
+  (st, { c_in = List.map nat_of_int cin; c_out = List.map nat_of_int cout; c_auto = auto; c_learn = List.map nat_of_int learn })
 
 (* do all quorums of configurations a and b intersect?  (ids 1..n; brute force over the 2^n
    subsets p: a quorum of a inside p and a quorum of b inside the complement of p would be disjoint) *)
@@ -296,7 +297,7 @@ let normalize_cc (n : int) (x : cxstate) : cxstate =
 let run_tracecc infile outfile =
   let oc = open_out_bin outfile in
   let lines = read_lines infile in
-  let cur_k = ref "" and cur_n = ref 0 and header = ref "" and cur_boot = ref 0 and cur_page1 = ref false and cur_skip = ref false in
+  let cur_k = ref "" and cur_n = ref 0 and header = ref "" and cur_boot = ref 0 and cur_page1 = ref false and cur_skip = ref false and cur_learners = ref false in
   let groups : group list ref = ref [] in
   let cur : group option ref = ref None in
   let flush_group () = (match !cur with Some g -> groups := { g with g_out = List.rev g.g_out } :: !groups | None -> ()); cur := None in
@@ -306,7 +307,7 @@ let run_tracecc infile outfile =
     groups := [];
     if !cur_skip then Printf.fprintf oc "S %s SKIP learners\n" !cur_k else
     let n = !cur_n in
-    let boot = { c_in = List.init !cur_boot (fun i -> nat_of_int (i + 1)); c_out = []; c_auto = false } in
+    let boot = { c_in = List.init !cur_boot (fun i -> nat_of_int (i + 1)); c_out = []; c_auto = false; c_learn = [] } in
     let page1 = !cur_page1 in
     let x = ref (normalize_cc n cx_init) in
     let fail = ref None in
@@ -363,13 +364,14 @@ let run_tracecc infile outfile =
      | None ->
        let fam = !family in
        let inside = List.for_all (fun a -> List.for_all (fun b -> confs_intersect n a b) fam) fam in
-       Printf.fprintf oc "S %s OK events=%d nodes=%d elections=%d confswitches=%d configs=%d envelope=%d\n" !cur_k !idx n !elections !confs
-         (List.length fam) (if inside then 1 else 0)) in
+       Printf.fprintf oc "S %s OK events=%d nodes=%d elections=%d confswitches=%d configs=%d envelope=%d learners=%d\n" !cur_k !idx n !elections !confs
+         (List.length fam) (if inside then 1 else 0)
+         (if !cur_learners then 1 else 0)) in
   List.iter (fun l ->
       match split_ws l with
       | ["SCHEDULE"; k] -> cur_k := k; groups := []; cur := None
       | "N" :: n :: _ :: _ :: ms :: k :: rest -> cur_n := int_of_string n; cur_boot := int_of_string k; cur_page1 := (ms = "0"); header := l;
-        cur_skip := (match rest with f :: _ -> int_of_string f land 4 <> 0 | [] -> false)
+        cur_skip := false; cur_learners := (match rest with f :: _ -> int_of_string f land 4 <> 0 | [] -> false)
       | "EV" :: kind :: id :: args -> flush_group (); cur := Some { g_kind = kind; g_id = int_of_string id; g_args = args; g_out = []; g_st = None; g_panic = None }
       | "OUT" :: toks -> (match !cur with Some g -> cur := Some { g with g_out = toks :: g.g_out } | None -> ())
       | "ST" :: toks -> (match !cur with Some g -> cur := Some { g with g_st = Some toks } | None -> ())
@@ -498,12 +500,18 @@ let pmsg_of_tokens (toks : string list) : pmsg =
         nat_of_int (int_of_string logterm), nat_of_int (int_of_string index))
   | "XPW" :: from :: to_ :: term :: _ :: _ :: _ :: rej :: _ ->
     PW (nat_of_int (int_of_string from), nat_of_int (int_of_string to_), nat_of_int (int_of_string term), rej = "1")
+  | "XMsgTimeoutNow" :: from :: to_ :: term :: _ ->
+    PT (nat_of_int (int_of_string from), nat_of_int (int_of_string to_), nat_of_int (int_of_string term))
+  | "XMsgTransferLeader" :: from :: to_ :: term :: _ ->
+    PL (nat_of_int (int_of_string from), nat_of_int (int_of_string to_), nat_of_int (int_of_string term))
   | _ -> PB (msg_of_tokens toks)
 
 let pmsg_str = function
   | PB m -> msg_str m
   | PV (f, t, tm, lt, i) -> Printf.sprintf "XPV %d %d %d %d %d" (int_of_nat f) (int_of_nat t) (int_of_nat tm) (int_of_nat lt) (int_of_nat i)
   | PW (f, t, tm, r) -> Printf.sprintf "XPW %d %d %d %s" (int_of_nat f) (int_of_nat t) (int_of_nat tm) (if r then "reject" else "grant")
+  | PT (f, t, tm) -> Printf.sprintf "XMsgTimeoutNow %d %d %d" (int_of_nat f) (int_of_nat t) (int_of_nat tm)
+  | PL (f, t, tm) -> Printf.sprintf "XMsgTransferLeader %d %d %d" (int_of_nat f) (int_of_nat t) (int_of_nat tm)
 
 let normalize_pv (n : int) (x : pxstate) : pxstate =
   let arr = Array.init (n + 1) (fun i -> x.px_nodes (nat_of_int i)) in
@@ -520,14 +528,15 @@ let run_tracepv infile outfile =
     flush_group ();
     let gs = List.rev !groups in
     groups := [];
-    if !cur_flags <> 1 && !cur_flags <> 3 then Printf.fprintf oc "S %s SKIP flags=%d\n" !cur_k !cur_flags else begin
+    if (!cur_flags land 1) = 0 || (!cur_flags land 4) <> 0 then Printf.fprintf oc "S %s SKIP flags=%d\n" !cur_k !cur_flags else begin
     let cq = (!cur_flags land 2) <> 0 in
+    let tl = (!cur_flags land 8) <> 0 in
     let n = !cur_n in
     let ids = List.init n (fun i -> nat_of_int (i + 1)) in
     let c0 = ids and c1 = [] in
     let x = ref (normalize_pv n px_init) in
     let fail = ref None in
-    let idx = ref 0 and prevotes = ref 0 and precand = ref 0 and elections = ref 0 and stepdowns = ref 0 and leased = ref 0 in
+    let idx = ref 0 and prevotes = ref 0 and precand = ref 0 and elections = ref 0 and stepdowns = ref 0 and leased = ref 0 and dropped = ref 0 and timeoutnow = ref 0 in
     let prevrole = Array.make (n + 1) "F" in
     (try
        List.iter (fun g ->
@@ -546,7 +555,10 @@ let run_tracepv infile outfile =
            let candidates : pevent list =
              (try match base with
                 | "C" -> [PvCampaign]
-                | "P" -> [PvPropose (nat_of_int (int_of_string (List.hd g.g_args)))]
+                | "P" ->
+                  (* a leader drops proposals while a leadership transfer is in progress *)
+                  [PvPropose (nat_of_int (int_of_string (List.hd g.g_args)))] @ (if tl then [PvTick] else [])
+                | "TL" -> [PvTick]      (* RawNode.TransferLeader: nothing observed changes; it may send MsgTimeoutNow / forward *)
                 | "T" ->
                   (* a tick that fired the election timeout of a pre-candidate changes nothing that is
                      observed (same term, same role) but restarts the pre-election: tell it by the
@@ -560,7 +572,7 @@ let run_tracepv infile outfile =
                   (* Config.CheckQuorum: a vote request may be ignored altogether (leader lease) *)
                   [PvRecv (pmsg_of_tokens g.g_args)]
                   @ (match g.g_args with ("V" | "XPV") :: _ when cq -> [PvTick] | _ -> [])
-                | "FP" | "FPD" -> (match g.g_args with _ :: _ :: _ :: p :: _ -> [PvPropose (nat_of_int (int_of_string p))] | _ -> failwith "bad FP")
+                | "FP" | "FPD" -> (match g.g_args with _ :: _ :: _ :: p :: _ -> [PvPropose (nat_of_int (int_of_string p))] @ (if tl then [PvTick] else []) | _ -> failwith "bad FP")
                 | k -> failwith ("unknown event kind " ^ k)
               with Unmodelled c -> fail := Some (Printf.sprintf "event=%d reason=unmodelled-message %s" !idx c); raise Exit) in
            let rec try_all_ok evs = match evs with
@@ -570,6 +582,7 @@ let run_tracepv infile outfile =
                    (match ev, base with
                     | PvStepDown, _ -> incr stepdowns
                     | PvTick, ("D" | "DD") -> incr leased
+                    | PvTick, ("P" | "FP" | "FPD") -> incr dropped
                     | _ -> ());
                    Some x'
                  | _ -> try_all_ok rest) in
@@ -583,6 +596,7 @@ let run_tracepv infile outfile =
               if rolecode = "L" && prevrole.(g.g_id) <> "L" then incr elections;
               prevrole.(g.g_id) <- rolecode;
               (match g.g_args with "XPW" :: _ when base = "D" || base = "DD" -> incr prevotes | _ -> ());
+              (match g.g_args with "XMsgTimeoutNow" :: _ when base = "D" || base = "DD" -> incr timeoutnow | _ -> ());
               x := normalize_pv n x'
             | PVBadEvent -> fail := Some (Printf.sprintf "event=%d reason=delivered-message-never-sent | %s" !idx (String.concat " " g.g_args)); raise Exit
             | PVMissingReply m -> fail := Some (Printf.sprintf "event=%d reason=missing-reply | model replies: %s | %s %d %s" !idx (pmsg_str m) g.g_kind g.g_id (String.concat " " g.g_args)); raise Exit
@@ -591,7 +605,7 @@ let run_tracepv infile outfile =
      with Exit -> ());
     (match !fail with
      | Some f -> Printf.fprintf oc "S %s FAIL %s\n" !cur_k f
-     | None -> Printf.fprintf oc "S %s OK events=%d nodes=%d elections=%d precandidacies=%d prevoteresp=%d checkquorum=%d stepdowns=%d leased=%d\n" !cur_k !idx n !elections !precand !prevotes (if cq then 1 else 0) !stepdowns !leased)
+     | None -> Printf.fprintf oc "S %s OK events=%d nodes=%d elections=%d precandidacies=%d prevoteresp=%d checkquorum=%d stepdowns=%d leased=%d transfer=%d timeoutnow=%d dropped=%d\n" !cur_k !idx n !elections !precand !prevotes (if cq then 1 else 0) !stepdowns !leased (if tl then 1 else 0) !timeoutnow !dropped)
     end in
   List.iter (fun l ->
       match split_ws l with
